@@ -1,4 +1,5 @@
 import HapVerif.Proofs.HttpFeed
+import HapVerif.Proofs.HttpWriter
 import Mathlib.Data.List.Induction
 
 /-! # C07 - HTTP/EVENT message parsing is independent of stream segmentation
@@ -65,6 +66,72 @@ theorem C07_segmentation_fresh (chunks : List Bytes)
     (hg : ∀ k, k ≤ chunks.length → GoodRun {} (chunks.take k).flatten) :
     feedAll {} chunks = feed {} chunks.flatten :=
   C07_segmentation chunks {} INV_fresh hg
+
+/-! ### correctness against an independent writer (`Spec/HttpWriter.lean`) -/
+
+/-- one written message at the front of the buffer: the parser produces exactly that message (version, status
+    code, headers in order, body) and leaves exactly the bytes that follow it -/
+theorem C07_written_message_parsed (m : WMsg) (code : Nat) (g : Good m code) (rest : Bytes) :
+    parse {} (write m ++ rest) = .ok (⟨m.core code, rest⟩, rest) ∧ (m.core code).msg = m.msg code := by
+  refine ⟨?_, rfl⟩
+  simp only [parse, app_fresh, norm_write m code g rest]
+  show (if (m.core code).complete = true then _ else _) = _
+  rw [core_complete]; rfl
+
+theorem length_le_writeAll : ∀ (ms : List (WMsg × Nat)), ms.length ≤ (writeAll ms).length := by
+  intro ms
+  induction ms with
+  | nil => simp
+  | cons x ms ih =>
+    obtain ⟨m, c⟩ := x
+    have : 0 < (write m).length := List.length_pos_iff.mpr (write_ne_nil m)
+    simp only [writeAll, List.length_cons, List.length_append]
+    omega
+
+/-- a whole stream of written messages in one read -/
+theorem C07_written_stream_one_read (ms : List (WMsg × Nat)) (hg : ∀ x ∈ ms, Good x.1 x.2) :
+    feed {} (writeAll ms) = (ms.map (fun x => x.1.msg x.2), .ok {}) := by
+  unfold feed
+  exact feedLoop_writeAll ms _ (by have := length_le_writeAll ms; simp; omega) hg
+
+/-- **Correctness for every segmentation**: a stream of messages written by a conformant accessory, delivered in
+    reads cut anywhere at all, yields exactly those messages - in order, none lost, none duplicated, none merged,
+    bodies byte-exact - and leaves a fresh parser with an empty buffer.  (The side condition of
+    `C07_segmentation` is *proved* for every prefix of such a stream, not assumed.) -/
+theorem C07_written_stream_any_segmentation (ms : List (WMsg × Nat)) (hg : ∀ x ∈ ms, Good x.1 x.2)
+    (chunks : List Bytes) (h : chunks.flatten = writeAll ms) :
+    feedAll {} chunks = (ms.map (fun x => x.1.msg x.2), .ok {}) := by
+  rw [C07_segmentation_fresh chunks, h, C07_written_stream_one_read ms hg]
+  intro k _
+  refine GoodRun_prefix ms hg _ (chunks.drop k).flatten ?_
+  rw [← List.flatten_append, List.take_append_drop, h]
+
+/-- non-vacuity: a typical HAP response and an event satisfy `Good` -/
+def exResp : WMsg :=
+  { version := str "HTTP/1.1", codeText := str "207", reason := str "Multi-Status",
+    headers := [(str "Content-Type", str "application/hap+json")], lenText := str "2", body := str "{}" }
+def exEvent : WMsg :=
+  { version := str "EVENT/1.0", codeText := str "200", reason := str "OK",
+    headers := [(str "Content-Type", str "application/hap+json")], lenText := str "4", body := str "null" }
+def exNoBody : WMsg :=
+  { version := str "HTTP/1.1", codeText := str "204", reason := str "No Content", headers := [], lenText := [], body := [] }
+
+theorem goodHeader_ct : GoodHeader (str "Content-Type", str "application/hap+json") :=
+  ⟨by decide +kernel, by decide +kernel, by decide +kernel, by decide +kernel, by decide +kernel, by decide +kernel,
+   by decide +kernel⟩
+
+example : Good exResp 207 :=
+  ⟨by decide +kernel, by decide +kernel, by decide +kernel, by decide +kernel, by decide +kernel,
+   by intro h hh; simp [exResp] at hh; subst hh; exact goodHeader_ct,
+   fun _ => by decide +kernel, fun _ => by decide +kernel, fun _ => by decide +kernel, fun _ => by decide +kernel⟩
+example : Good exEvent 200 :=
+  ⟨by decide +kernel, by decide +kernel, by decide +kernel, by decide +kernel, by decide +kernel,
+   by intro h hh; simp [exEvent] at hh; subst hh; exact goodHeader_ct,
+   fun _ => by decide +kernel, fun _ => by decide +kernel, fun _ => by decide +kernel, fun _ => by decide +kernel⟩
+example : Good exNoBody 204 :=
+  ⟨by decide +kernel, by decide +kernel, by decide +kernel, by decide +kernel, by decide +kernel,
+   by intro h hh; simp [exNoBody] at hh,
+   fun h => absurd rfl h, fun h => absurd rfl h, fun h => absurd rfl h, fun h => absurd rfl h⟩
 
 /-! ### non-vacuity: a concrete stream (one fixed-length HTTP response followed by a chunked EVENT)
 cut inside the status line and inside a chunk -/
